@@ -651,6 +651,10 @@ def parse_vc(path):
                     fn['wrap'] = s2[6:].strip()
                 elif s2 == '#wrap-begin':
                     fn['wrap'] = block('#end')
+                elif s2.startswith('#wrap-mode '):
+                    # several extracted fns inside ONE impl/trait block: open (emit header, keep the block
+                    # open), inner (body only), close (body + closing brace)
+                    fn['wrap_mode'] = s2.split()[1]
                 elif s2.startswith('#attr '):
                     fn['attrs'] += s2[6:].strip() + '\n'
                 elif s2 == '#spec':
@@ -1022,6 +1026,8 @@ def extract_type(repo, spec, features):
             j += 1
     lo, hi = T[first].start, (T[end].start if end < len(T) else len(sf.text))
     out = edits.apply(sf.text[lo:hi], lo)
+    # doc comments are attributes: one left in front of a field removed by E2 would dangle
+    out = re.sub(r'(?m)^(\s*)///', r'\1// ', out)
     # D1/D2: the source item's own #[derive(..)] list decides which assumed impls may be emitted
     derives = set()
     j = first
@@ -1082,11 +1088,17 @@ def build_unit(vc_path, repo):
             f = extract_fn(repo, sec, feats)
             wrap = sec['wrap'] if sec['wrap'] is not None else f['impl_header']
             body = f'// extracted: {f["file"]}:{f["line"]}-{f["end_line"]}\n' + sec['attrs'] + f['text'] + '\n'
-            if wrap and wrap != '-':
+            mode = sec.get('wrap_mode')
+            if mode == 'inner':
+                pass
+            elif mode == 'close':
+                body = f'{body}}}\n'
+            elif wrap and wrap != '-':
+                closing = '' if mode == 'open' else '}\n'
                 if '{' in wrap:   # wrap text opens the block itself (may declare sibling items)
-                    body = f'{wrap}\n{body}}}\n'
+                    body = f'{wrap}\n{body}{closing}'
                 else:
-                    body = f'{wrap} {{\n{body}}}\n'
+                    body = f'{wrap} {{\n{body}{closing}'
             n_lines = body.count('\n')
             res.line_map.append((cur_line, cur_line + n_lines, sec['id'] or sec['name']))
             res.functions.append({'id': sec['id'] or sec['name'], 'file': f['file'],
